@@ -311,7 +311,10 @@ class Sym:
 
     def _div(self, num, den):
         c = cur()
-        c.check_nonzero(den)
+        if c.check_nonzero(den) == "zero":
+            # policy "havoc_zero": the divisor is forced to 0 on this path; numpy would give inf/nan - modelled
+            # as an arbitrary value so that the path (and the obligations after it) is still explored
+            return c.real("div_by_zero")
         return c.quotient(_real(num), _real(den))
 
     def __truediv__(self, o):
@@ -1105,6 +1108,8 @@ class Ctx:
         if z3.is_int_value(den) or z3.is_rational_value(den):
             zero = den.as_fraction() == 0 if z3.is_rational_value(den) else den.as_long() == 0
             if zero:
+                if self.ex.div_policy == "havoc_zero":
+                    return "zero"
                 # numpy floats give inf/nan here, Python numbers raise: either way
                 # outside the real-arithmetic model -> the path is assumed away (counted)
                 self.stats.div_assumptions += 1
@@ -1122,6 +1127,8 @@ class Ctx:
             return
         r2 = self._check_quick(den != 0)
         if r2 == z3.unsat:
+            if pol == "havoc_zero":
+                return "zero"
             raise PathAbort()
         self.stats.div_assumptions += 1
         self._add(den != 0)
